@@ -38,11 +38,18 @@ CONSTANTS
     HistAnchor, \* TRUE: the sample ends with the node's lowest block (as genesis does for a full node)
     DevOutlineSidechainBan, \* TRUE: named deviation, see RelayOutline
     ZTops,      \* header chains a Byzantine peer may offer end in one of these blocks (Blocks: any)
+    ZTwins,     \* TRUE: a Byzantine worker may serve ID twins (honest header, other body) on the AddBlocks path
     ZRem,       \* values of `remaining = 0` a Byzantine peer may claim (BOOLEAN: any)
     DevCheckpointFromAllow, \* TRUE: self-test mutation -- the WORKER picks the checkpoint path from the allow height on
     DevSkipSeenValidation,  \* TRUE: self-test mutation -- pre-validation is skipped for blocks whose state is already stored
     DevCheckpointPayoutUnbound, \* TRUE: named deviation -- the miner payout VALUE of a checkpoint block is bound by nothing
     DevPayoutCountUnchecked,    \* TRUE: self-test mutation -- the miner payout COUNT of a checkpoint block is not checked
+    DevBanLastBatchPeer,      \* TRUE: named deviation -- a failed reorg bans the peer of the batch being added, whoever served the invalid block
+    DevSkipKnownBelowTip,     \* TRUE: self-test mutation -- AddBlocks skips ANY re-delivered block with a stored state at or below the tip height
+    DevOutlineAttachByHeight, \* TRUE: self-test mutation -- a relayed outline 'attaches' if its height is tip height + 1
+    Mineable,   \* blocks that do not exist initially: Miner[x] mines x once its parent is that node's tip
+    Miner,      \* [Mineable -> H]
+    FinalGoal,  \* the heaviest tip once everything is mined (only used when Mineable # {})
     DevNoPreValidation, \* TRUE: self-test mutation -- batches above the require height are submitted without ValidateBlock
     Labels      \* TRUE: act carries the transition label (edge export, safety runs with VIEW); FALSE: constant
 
@@ -65,9 +72,11 @@ VARIABLES
     misb,    \* SUBSET (H \X Z)       provable misbehaviour observed
     goal,    \* the heaviest honest initial tip (history variable fixed by Init)
     dead,    \* SUBSET H: honest nodes whose process died (an unrecovered panic in a sync goroutine)
+    garb,    \* [H -> SUBSET (Blocks \X Nodes)]  <<x, w>>: the stored, never-applied block x has the BODY peer w served, an "ID twin"
+             \*                       (a v2 id covers only the header; the body is bound by the commitment, checked on apply)
     act      \* label of the last transition (hidden by VIEW)
 
-vars == <<known, tip, link, round, seen, htip, sync, banned, misb, goal, dead>>
+vars == <<known, tip, link, round, seen, htip, sync, banned, misb, goal, dead, garb>>
 allvars == <<vars, act>>
 sview == vars
 
@@ -96,13 +105,15 @@ TypeOK ==
     /\ banned \subseteq (H \X Nodes)
     /\ misb \subseteq (H \X Z)
     /\ dead \subseteq H
+    /\ garb \in [H -> SUBSET (Blocks \X Nodes)]
 
 Init ==
     /\ \E f \in InitTips :
-          /\ Admissible(f)
+          /\ Mineable = {} => Admissible(f)
+          /\ \A n \in H : AncSet(T, f[n]) \cap Mineable = {}
           /\ tip = f
           /\ known = [n \in H |-> {b \in AncSet(T, f[n]) : T.h[b] >= Lowest(n)}]
-          /\ goal = HeaviestOf(f)
+          /\ goal = IF Mineable = {} THEN HeaviestOf(f) ELSE FinalGoal
     /\ link = [p \in Nodes \X Nodes |-> "off"]
     /\ round = [n \in H |-> {}]
     /\ seen = [n \in H |-> {}]
@@ -111,6 +122,7 @@ Init ==
     /\ banned = {}
     /\ misb = {}
     /\ dead = {}
+    /\ garb = [n \in H |-> {}]
     /\ act = Lbl([op |-> "Init"])
 
 -----------------------------------------------------------------------------
@@ -162,7 +174,7 @@ Connect(a, b) ==
     /\ <<a, b>> \notin banned /\ <<b, a>> \notin banned
     /\ link' = [link EXCEPT ![<<a, b>>] = "unsynced", ![<<b, a>>] = "unsynced"]
     /\ act' = Lbl([op |-> "Connect", a |-> a, b |-> b])
-    /\ UNCHANGED <<known, tip, round, seen, htip, sync, banned, misb, goal, dead>>
+    /\ UNCHANGED <<known, tip, round, seen, htip, sync, banned, misb, goal, dead, garb>>
 
 -----------------------------------------------------------------------------
 (* syncLoop, syncer.go:784-864 *)
@@ -177,7 +189,7 @@ SyncTick(n) ==
     /\ seen' = [seen EXCEPT ![n] = {}]
     /\ htip' = [htip EXCEPT ![n] = tip[n]]
     /\ act' = Lbl([op |-> "SyncTick", n |-> n])
-    /\ UNCHANGED <<known, tip, link, sync, banned, misb, goal, dead>>
+    /\ UNCHANGED <<known, tip, link, sync, banned, misb, goal, dead, garb>>
 
 StartSync(n, p, base, top, rem0) ==
     /\ sync' = [sync EXCEPT ![n] = [on |-> TRUE, src |-> p, base |-> base, top |-> top, nxt |-> 0, rem0 |-> rem0]]
@@ -189,7 +201,7 @@ HandleRespHonest(n, p) ==
     /\ p \in round[n]
     /\ ~sync[n].on
     /\ round' = [round EXCEPT ![n] = @ \ {p}]
-    /\ UNCHANGED <<known, tip, htip, banned, misb, goal, dead>>
+    /\ UNCHANGED <<known, tip, htip, banned, misb, goal, dead, garb>>
     /\ IF link[<<n, p>>] # "unsynced"
          THEN /\ UNCHANGED <<link, sync, seen>>
               /\ act' = Lbl([op |-> "Headers", n |-> n, p |-> p, res |-> "gone"])
@@ -216,7 +228,7 @@ HandleRespByz(n, z) ==
     /\ z \in round[n]
     /\ ~sync[n].on
     /\ round' = [round EXCEPT ![n] = @ \ {z}]
-    /\ UNCHANGED <<known, tip, htip, banned, misb, goal, dead>>
+    /\ UNCHANGED <<known, tip, htip, banned, misb, goal, dead, garb>>
     /\ IF link[<<n, z>>] # "unsynced"
          THEN /\ UNCHANGED <<link, sync, seen>>
               /\ act' = Lbl([op |-> "Headers", n |-> n, p |-> z, res |-> "gone"])
@@ -245,28 +257,52 @@ HandleRespByz(n, z) ==
 (* parallelSync, parallel_sync.go:17-239 *)
 
 \* the batch is served by worker w with exactly the announced blocks and applied
-ApplyBatch(n, w, bs, void) ==
-    LET validated == T.h[T.par[bs[1]]] >= ReqH IN
+\* the tree as node n's store sees it: a block whose stored body is an ID twin fails when it is applied
+GarbIds(g) == {q[1] : q \in g}
+Seen(n, g) == [T EXCEPT !.cls = [b \in DOMAIN T.par |-> IF b \in GarbIds(g) THEN "bad" ELSE T.cls[b]]]
+
+\* bodies stored by AddBlocks(bs) when worker w delivers the blocks in `tw` as ID twins (honest header, other
+\* body): an applied block is skipped ("already have this block"); a stored but never-applied block is
+\* re-validated and RE-STORED, so an honest re-delivery heals a twin (chain/manager.go:278-300).  The
+\* mutation skips every block with a stored state at or below the tip height instead.
+Restored(n, bs) ==
+    {x \in Range(bs) \ AncSet(T, tip[n]) :
+        ~(DevSkipKnownBelowTip /\ x \in known[n] /\ T.h[x] <= T.h[tip[n]])}
+GarbAfter(n, w, bs, tw) ==
+    {q \in garb[n] : q[1] \notin Restored(n, bs)} \cup {<<x, w>> : x \in tw \cap Restored(n, bs)}
+
+\* whom to blame when adding w's batch ends in a failed reorg: the peer that served the block that failed
+\* (the batch's own peer if nothing better is known)
+Culprit(n, w, g, last) ==
+    LET bad == {q \in g : q[1] \in Above(T, last, AncSet(T, tip[n]))}
+    IN IF DevBanLastBatchPeer \/ bad = {} THEN w ELSE (CHOOSE q \in bad : TRUE)[2]
+
+ApplyBatch(n, w, bs, void, tw) ==
+    LET validated == T.h[T.par[bs[1]]] >= ReqH
+        \* AddValidatedV2Blocks stores the (pre-validated) bodies it is given
+        g1 == IF validated THEN {q \in garb[n] : q[1] \notin Range(bs)} ELSE GarbAfter(n, w, bs, tw)
+        who == Culprit(n, w, g1, bs[Len(bs)]) IN
     \* known[n] holds every block whose (header) state is stored -- including blocks that were submitted,
     \* failed full validation and were rolled back (chain/manager.go:276-278): "stored" is not "validated"
     IF validated /\ ~DevNoPreValidation /\ ~void /\ \E i \in DOMAIN bs : T.cls[bs[i]] # "ok" /\ (DevSkipSeenValidation => bs[i] \notin known[n])
       THEN \* consensus.ValidateBlock against the checkpoint-derived state fails: ban, batch discarded
            /\ BanUpd(n, w)
            /\ misb' = IF w \in Z THEN misb \cup {<<n, w>>} ELSE misb
-           /\ UNCHANGED <<known, tip, sync>>
+           /\ UNCHANGED <<known, tip, sync, garb>>
            /\ act' = Lbl([op |-> "Fetch", n |-> n, w |-> w, res |-> "invalid"])
-      ELSE LET r == IF validated THEN AddValidatedRes(T, known[n], tip[n], bs)
-                                 ELSE AddBlocksRes(T, known[n], tip[n], bs) IN
+      ELSE LET r == IF validated THEN AddValidatedRes(Seen(n, g1), known[n], tip[n], bs)
+                                 ELSE AddBlocksRes(Seen(n, g1), known[n], tip[n], bs) IN
            /\ known' = [known EXCEPT ![n] = r.known]
            /\ tip' = [tip EXCEPT ![n] = r.tip]
+           /\ garb' = [garb EXCEPT ![n] = g1]
            /\ IF r.err
-                THEN /\ BanUpd(n, w)
-                     /\ misb' = IF w \in Z THEN misb \cup {<<n, w>>} ELSE misb
+                THEN /\ BanUpd(n, who)
+                     /\ misb' = IF who \in Z THEN misb \cup {<<n, who>>} ELSE misb
                      /\ sync' = [sync EXCEPT ![n] = NoSync]
                      /\ act' = Lbl([op |-> "Fetch", n |-> n, w |-> w, res |-> "rejected"])
                 ELSE /\ sync' = [sync EXCEPT ![n].nxt = @ + 1]
                      /\ UNCHANGED <<link, banned, misb>>
-                     /\ act' = Lbl([op |-> "Fetch", n |-> n, w |-> w, res |-> "ok"])
+                     /\ act' = Lbl([op |-> "Fetch", n |-> n, w |-> w, res |-> (IF tw = {} THEN "ok" ELSE "twin")])
 
 FetchHonest(n, w) ==
     /\ w \in H
@@ -274,7 +310,7 @@ FetchHonest(n, w) ==
     /\ sync[n].nxt < NBatches(n)
     /\ link[<<n, w>>] = "unsynced"
     /\ CanServe(w, BatchOf(n))
-    /\ ApplyBatch(n, w, BatchOf(n), FALSE)
+    /\ ApplyBatch(n, w, BatchOf(n), FALSE, {})
     /\ UNCHANGED <<round, seen, htip, goal, dead>>
 
 \* a Byzantine worker may serve the exact blocks (whatever their validity); every other answer
@@ -286,7 +322,8 @@ FetchByz(n, z) ==
     /\ sync[n].nxt < NBatches(n)
     /\ link[<<n, z>>] = "unsynced"
     /\ Fetchable(BatchOf(n))
-    /\ ApplyBatch(n, z, BatchOf(n), FALSE)
+    /\ \E tw \in {{}} \cup {{x} : x \in {y \in Range(BatchOf(n)) : T.cls[y] = "ok" /\ ZTwins}} :
+          ApplyBatch(n, z, BatchOf(n), FALSE, tw)
     /\ UNCHANGED <<round, seen, htip, goal, dead>>
 
 \* Corruptions of the SendCheckpoint answer (state, block) for the base of a batch on the pre-validated
@@ -316,9 +353,9 @@ FetchByzCkpt(n, z, c) ==
     /\ IF c = "payouts-empty" /\ DevPayoutCountUnchecked
          THEN /\ dead' = dead \cup {n}
               /\ act' = Lbl([op |-> "FetchCkpt", n |-> n, w |-> z, c |-> c, res |-> "panic"])
-              /\ UNCHANGED <<known, tip, link, round, seen, htip, sync, banned, misb, goal>>
+              /\ UNCHANGED <<known, tip, link, round, seen, htip, sync, banned, misb, goal, garb>>
        ELSE IF (c = "payouts-extra" /\ DevPayoutCountUnchecked) \/ (c = "payout-value" /\ DevCheckpointPayoutUnbound)
-         THEN /\ ApplyBatch(n, z, BatchOf(n), TRUE)
+         THEN /\ ApplyBatch(n, z, BatchOf(n), TRUE, {})
               /\ UNCHANGED <<round, seen, htip, goal, dead>>
        ELSE /\ act' = Lbl([op |-> "FetchCkpt", n |-> n, w |-> z, c |-> c, res |-> "rejected"])
             /\ UNCHANGED vars
@@ -330,7 +367,7 @@ SyncAbort(n) ==
     /\ ~\E w \in H : link[<<n, w>>] = "unsynced" /\ CanServe(w, BatchOf(n))
     /\ sync' = [sync EXCEPT ![n] = NoSync]
     /\ act' = Lbl([op |-> "SyncAbort", n |-> n])
-    /\ UNCHANGED <<known, tip, link, round, seen, htip, banned, misb, goal, dead>>
+    /\ UNCHANGED <<known, tip, link, round, seen, htip, banned, misb, goal, dead, garb>>
 
 \* every batch applied: a peer that sent all its headers is marked synced (syncer.go:855-860)
 SyncDone(n) ==
@@ -340,7 +377,7 @@ SyncDone(n) ==
                  THEN [link EXCEPT ![<<n, sync[n].src>>] = "synced"] ELSE link
     /\ sync' = [sync EXCEPT ![n] = NoSync]
     /\ act' = Lbl([op |-> "SyncDone", n |-> n])
-    /\ UNCHANGED <<known, tip, round, seen, htip, banned, misb, goal, dead>>
+    /\ UNCHANGED <<known, tip, round, seen, htip, banned, misb, goal, dead, garb>>
 
 -----------------------------------------------------------------------------
 (* relay handlers, peer.go:353-453.  Announce: an honest node (re-)announces its tip -- *)
@@ -353,7 +390,7 @@ Announce(a, b, kind) ==
     /\ LET x == tip[a]
            p == T.par[x]
        IN /\ act' = Lbl([op |-> "Announce", a |-> a, b |-> b, kind |-> kind])
-          /\ UNCHANGED <<round, seen, htip, sync, misb, goal, dead>>
+          /\ UNCHANGED <<round, seen, htip, sync, misb, goal, dead, garb>>
           /\ IF p \notin known[b]
                THEN \* unknown parent
                     /\ link' = Resync(link, b, a)
@@ -363,11 +400,18 @@ Announce(a, b, kind) ==
                     \* state is header-only, so the id derived from it (outline.ID(cs)) is garbage:
                     \* never "already seen", never attaching.  Deviation: the code checks the work
                     \* of that garbage id BEFORE the attachment test and bans the honest peer.
-                    \/ /\ link' = Resync(link, b, a)
-                       /\ UNCHANGED <<known, tip, banned>>
-                    \/ /\ DevOutlineSidechainBan
-                       /\ BanUpd(b, a)
-                       /\ UNCHANGED <<known, tip>>
+                    \* The attachment test is on the PARENT ID (peer.go: r.Block.ParentID != Tip().ID).  Mutation
+                    \* DevOutlineAttachByHeight tests the height instead: a child of a competing block at our
+                    \* tip's height "attaches", is rebuilt from the header-only parent state, fails on apply,
+                    \* and the honest announcer is banned.
+                    IF DevOutlineAttachByHeight /\ T.h[x] = T.h[tip[b]] + 1
+                      THEN /\ BanUpd(b, a)
+                           /\ UNCHANGED <<known, tip>>
+                      ELSE \/ /\ link' = Resync(link, b, a)
+                              /\ UNCHANGED <<known, tip, banned>>
+                           \/ /\ DevOutlineSidechainBan
+                              /\ BanUpd(b, a)
+                              /\ UNCHANGED <<known, tip>>
              ELSE IF x \in known[b]
                THEN UNCHANGED <<known, tip, link, banned>>
              ELSE IF p # tip[b]
@@ -380,6 +424,17 @@ Announce(a, b, kind) ==
                     /\ tip' = [tip EXCEPT ![b] = r.tip]
                     /\ IF r.err THEN BanUpd(b, a) ELSE UNCHANGED <<link, banned>>
 
+\* an honest node mines the next block on its tip (the second phase of the equal-height scenarios)
+Mine(n, x) ==
+    /\ x \in Mineable
+    /\ Miner[x] = n
+    /\ T.par[x] = tip[n]
+    /\ x \notin known[n]
+    /\ known' = [known EXCEPT ![n] = @ \cup {x}]
+    /\ tip' = [tip EXCEPT ![n] = x]
+    /\ act' = Lbl([op |-> "Mine", n |-> n, x |-> x])
+    /\ UNCHANGED <<link, round, seen, htip, sync, banned, misb, goal, dead, garb>>
+
 \* a Byzantine peer relays: header / outline / transaction set, honest-looking or corrupted.
 \*   ban     provable: insufficient work on a known parent, wrong "missing" transactions,
 \*           empty transaction set
@@ -389,7 +444,7 @@ Announce(a, b, kind) ==
 ZRelay(z, n, eff, x) ==
     /\ z \in Z /\ n \in H
     /\ link[<<n, z>>] # "off"
-    /\ UNCHANGED <<round, seen, htip, sync, goal, dead>>
+    /\ UNCHANGED <<round, seen, htip, sync, goal, dead, garb>>
     /\ act' = Lbl([op |-> "ZRelay", z |-> z, n |-> n, eff |-> eff, x |-> x])
     /\ eff # "block" => x = G
     /\ CASE eff = "ban" ->
@@ -416,6 +471,7 @@ ZRelay(z, n, eff, x) ==
 Next ==
     \/ \E a, b \in Nodes : Connect(a, b)
     \/ \E n \in H : SyncTick(n) \/ SyncAbort(n) \/ SyncDone(n)
+    \/ \E n \in H, x \in Mineable : Mine(n, x)
     \/ \E n \in H, p \in Nodes : HandleRespHonest(n, p) \/ HandleRespByz(n, p)
     \/ \E n \in H, w \in Nodes : FetchHonest(n, w) \/ FetchByz(n, w)
     \/ \E n \in H, z \in Z, c \in CkptCorruptions : FetchByzCkpt(n, z, c)
@@ -426,6 +482,7 @@ Next ==
 \* Byzantine peer fair as well); nothing is assumed about Byzantine nodes
 Fair ==
     /\ \A a, b \in H : WF_vars(Connect(a, b))
+    /\ \A n \in H, x \in Mineable : WF_vars(Mine(n, x))
     /\ \A n \in H : WF_vars(SyncTick(n)) /\ WF_vars(SyncAbort(n)) /\ WF_vars(SyncDone(n))
     /\ \A n \in H, p \in Nodes : WF_vars(HandleRespHonest(n, p)) /\ WF_vars(HandleRespByz(n, p))
     /\ \A n \in H, w \in H : WF_vars(FetchHonest(n, w))
@@ -440,6 +497,7 @@ FairSpec == Spec /\ Fair
 \* synced() test helper sends it
 FairHeaderOnly ==
     /\ \A a, b \in H : WF_vars(Connect(a, b))
+    /\ \A n \in H, x \in Mineable : WF_vars(Mine(n, x))
     /\ \A n \in H : WF_vars(SyncTick(n)) /\ WF_vars(SyncAbort(n)) /\ WF_vars(SyncDone(n))
     /\ \A n \in H, p \in Nodes : WF_vars(HandleRespHonest(n, p)) /\ WF_vars(HandleRespByz(n, p))
     /\ \A n \in H, w \in H : WF_vars(FetchHonest(n, w))
@@ -450,6 +508,7 @@ FairSpecHeaderOnly == Spec /\ FairHeaderOnly
 \* swallowed and the peer stays marked synced forever -- Convergence must FAIL under this spec
 FairNoAnnounce ==
     /\ \A a, b \in H : WF_vars(Connect(a, b))
+    /\ \A n \in H, x \in Mineable : WF_vars(Mine(n, x))
     /\ \A n \in H : WF_vars(SyncTick(n)) /\ WF_vars(SyncAbort(n)) /\ WF_vars(SyncDone(n))
     /\ \A n \in H, p \in Nodes : WF_vars(HandleRespHonest(n, p)) /\ WF_vars(HandleRespByz(n, p))
     /\ \A n \in H, w \in H : WF_vars(FetchHonest(n, w))
@@ -461,7 +520,7 @@ FairSpecNoAnnounce == Spec /\ FairNoAnnounce
 \* every honest node's best chain is valid and linked, and the node stores all of it
 AlwaysValid ==
     \A n \in H : \A b \in AncSet(T, tip[n]) :
-        T.h[b] >= Lowest(n) => T.cls[b] = "ok" /\ b \in known[n]
+        T.h[b] >= Lowest(n) => T.cls[b] = "ok" /\ b \in known[n] /\ b \notin GarbIds(garb[n])
 
 \* a node's tip never loses work, and only moves to a sufficiently heavier tip
 WorkMonotone ==
